@@ -77,6 +77,7 @@ func (f *Frame) scanInstr(in ssa.Instruction, li *loopInfo, depth int) {
 	ex := f.ex
 	switch x := in.(type) {
 	case *ssa.Store:
+		li.callArgs = append(li.callArgs, x.Val) // a stored reference may be loaded and passed on by a later iteration
 		cell, root := rootOfAddr(x.Addr)
 		if cell != nil {
 			li.cells[cell] = true
@@ -93,6 +94,7 @@ func (f *Frame) scanInstr(in ssa.Instruction, li *loopInfo, depth int) {
 		h := ex.S.heapForMap(x.Map.Type().Underlying().(*types.Map))
 		li.heaps[h] = true
 		li.noteWrite(h, x.Map, depth)
+		li.callArgs = append(li.callArgs, x.Value, x.Key)
 	case *ssa.Alloc:
 		if x.Heap {
 			li.allocs = true
@@ -128,6 +130,7 @@ func (f *Frame) scanCall(c *ssa.CallCommon, li *loopInfo, depth int) {
 	if b, ok := c.Value.(*ssa.Builtin); ok {
 		switch b.Name() {
 		case "append":
+			li.callArgs = append(li.callArgs, c.Args...)
 			li.allocs = true
 			li.heaps[ex.S.heapForSliceElem(c.Args[0].Type().Underlying().(*types.Slice).Elem())] = true
 		case "copy":
@@ -161,13 +164,21 @@ func (f *Frame) scanCall(c *ssa.CallCommon, li *loopInfo, depth int) {
 		}
 		if ct.HavocAll {
 			li.all = true
+			li.noteCallArgs(c)
 		}
 		for _, h := range ct.Modifies {
 			li.heaps[h] = true
 			li.unknownW[h] = true
 		}
-		if len(ct.Fresh) > 0 {
+		for _, w := range ct.Writes {
+			li.heaps[w.Heap] = true
+			li.unknownW[w.Heap] = true
+		}
+		if len(ct.Fresh) > 0 || len(ct.FreshObjs) > 0 {
 			li.allocs = true
+		}
+		for _, fo := range ct.FreshObjs {
+			li.heaps[fo.Heap] = true
 		}
 		return
 	}
@@ -175,6 +186,122 @@ func (f *Frame) scanCall(c *ssa.CallCommon, li *loopInfo, depth int) {
 		return
 	}
 	li.all = true
+	li.noteCallArgs(c)
+}
+
+func (li *loopInfo) noteCallArgs(c *ssa.CallCommon) {
+	if c.IsInvoke() {
+		li.callArgs = append(li.callArgs, c.Value)
+	} else if _, isFn := c.Value.(*ssa.Function); !isFn {
+		li.callArgs = append(li.callArgs, c.Value)
+	}
+	li.callArgs = append(li.callArgs, c.Args...)
+}
+
+// backProv: the objects existing at loop entry that value v (possibly computed
+// inside the loop) may refer to, by walking its definition back to values
+// defined outside the loop.
+func (f *Frame) backProv(v ssa.Value, li *loopInfo, seen map[ssa.Value]bool) provSet {
+	if seen[v] {
+		return nil
+	}
+	seen[v] = true
+	in, isInstr := v.(ssa.Instruction)
+	if !isInstr || in.Block() == nil || !li.blocks[in.Block()] {
+		switch v.(type) {
+		case *ssa.Const, *ssa.Function, *ssa.Builtin, *ssa.Global:
+			return nil
+		}
+		if a, ok := v.(*ssa.Alloc); ok && !a.Heap {
+			if c, ok := f.st.cells[cellKey{a, f}]; ok {
+				return c.Prov.closure()
+			}
+			return nil
+		}
+		if r, ok := f.regs[v]; ok {
+			return r.Prov.closure()
+		}
+		return nil
+	}
+	switch x := v.(type) {
+	case *ssa.Alloc, *ssa.MakeSlice, *ssa.MakeMap:
+		return nil
+	case *ssa.Next:
+		return f.backProv(x.Iter, li, seen)
+	}
+	var out provSet
+	var ops []*ssa.Value
+	ops = in.Operands(ops)
+	for _, op := range ops {
+		if op == nil || *op == nil {
+			continue
+		}
+		out = out.union(f.backProv(*op, li, seen))
+	}
+	return out.closure()
+}
+
+func (li *loopInfo) _unused() {}
+
+// loopStoresTo: the loop body itself assigns the variable.
+func (f *Frame) loopStoresTo(li *loopInfo, a *ssa.Alloc) bool {
+	for b := range li.blocks {
+		for _, in := range b.Instrs {
+			if st, ok := in.(*ssa.Store); ok {
+				if _, root := rootOfAddr(st.Addr); root == ssa.Value(a) {
+					return true
+				}
+			}
+		}
+	}
+	return false
+}
+
+// definitelyFresh: syntactically, v is always the result of an allocation made by
+// this activation (make, new, composite literal, append to such a value), possibly through phis.
+func definitelyFresh(v ssa.Value, seen map[ssa.Value]bool) bool {
+	if seen[v] {
+		return true
+	}
+	seen[v] = true
+	switch x := v.(type) {
+	case *ssa.MakeSlice, *ssa.MakeMap:
+		return true
+	case *ssa.Alloc:
+		return x.Heap
+	case *ssa.Phi:
+		for _, e := range x.Edges {
+			if !definitelyFresh(e, seen) {
+				return false
+			}
+		}
+		return true
+	case *ssa.Call:
+		if b, ok := x.Call.Value.(*ssa.Builtin); ok && b.Name() == "append" {
+			// our model of append always yields a new backing array; in reality it may
+			// reuse the first argument's, which is fresh by induction
+			return definitelyFreshOrNil(x.Call.Args[0], seen)
+		}
+	case *ssa.Slice:
+		return definitelyFresh(x.X, seen)
+	}
+	return false
+}
+
+func definitelyFreshOrNil(v ssa.Value, seen map[ssa.Value]bool) bool {
+	if c, ok := v.(*ssa.Const); ok && c.Value == nil {
+		return true
+	}
+	if p, ok := v.(*ssa.Phi); ok && !seen[p] {
+		seen[p] = true
+		for _, e := range p.Edges {
+			if !definitelyFreshOrNil(e, seen) {
+				return false
+			}
+		}
+		return true
+	}
+	return definitelyFresh(v, seen)
 }
 
 // noteWrite records that the loop writes the object that root points to in heap h.
@@ -433,9 +560,30 @@ func (f *Frame) enterLoop(li *loopInfo, back map[[2]*ssa.BasicBlock]bool) {
 	}
 	// havoc
 	if li.all {
+		old := f.st.clone()
+		touched := provSet{}
+		for _, a := range li.callArgs {
+			touched = touched.union(f.backProv(a, li, map[ssa.Value]bool{}))
+		}
+		for _, roots := range li.writes {
+			for _, r := range roots {
+				touched = touched.union(f.backProv(r, li, map[ssa.Value]bool{}))
+			}
+		}
+		touched = touched.closure()
 		ex.nframe++
 		f.st.heaps = map[string]string{}
 		f.st.epoch = 2000 + ex.nframe
+		// objects of this activation that the loop can neither write nor pass on keep their content
+		for _, o := range ex.fresh {
+			if _, t := touched[o]; t || li.unknownW[o.heap] {
+				a, isVar := o.site.(*ssa.Alloc)
+				if !isVar || !capturedReadOnly(a, 0) || f.loopStoresTo(li, a) {
+					continue
+				}
+			}
+			ex.assume("(= (select " + ex.heapTerm(f.st, o.heap) + " " + o.addr + ") (select " + ex.heapTerm(old, o.heap) + " " + o.addr + "))")
+		}
 	} else {
 		var hs []string
 		for hname := range li.heaps {
@@ -497,6 +645,22 @@ func (f *Frame) enterLoop(li *loopInfo, back map[[2]*ssa.BasicBlock]bool) {
 		}
 		v := f.havocVal(p.Type(), f.pfx+p.Name())
 		v.Prov = entryPhi[p].Prov.union(f.loopProv(li))
+		if definitelyFresh(p, map[ssa.Value]bool{}) {
+			// every value flowing into this phi is an allocation of this activation (make/append/new)
+			switch p.Type().Underlying().(type) {
+			case *types.Slice:
+				ex.assume("(< (Slice.ptr " + v.T + ") 0)")
+			case *types.Map, *types.Pointer:
+				ex.assume("(< " + v.T + " 0)")
+			}
+		} else if definitelyFreshOrNil(p, map[ssa.Value]bool{}) {
+			switch p.Type().Underlying().(type) {
+			case *types.Slice:
+				ex.assume("(<= (Slice.ptr " + v.T + ") 0)")
+			case *types.Map, *types.Pointer:
+				ex.assume("(<= " + v.T + " 0)")
+			}
+		}
 		headPhi[p] = v
 		f.regs[p] = v
 	}
